@@ -70,7 +70,62 @@ func mutate(rng *rand.Rand, doc map[string]any) string {
 		m, _ := vehicles[rng.Intn(len(vehicles))].(map[string]any)
 		return m
 	}
-	switch rng.Intn(24) {
+	switch rng.Intn(28) {
+	case 24, 25, 26, 27:
+		// the list form of duration_matrix: one (time-dependent) matrix per group of vehicle ids — as documented, then
+		// with a stale id, an uncovered vehicle, an id listed twice, or ids that merely match in number
+		dm, ok := doc["duration_matrix"]
+		if !ok || len(vehicles) == 0 {
+			return "none"
+		}
+		tmpl := map[string]any{}
+		switch x := dm.(type) {
+		case []any:
+			tmpl["default_matrix"] = x
+		case map[string]any:
+			for k, v := range x {
+				if k != "vehicle_ids" {
+					tmpl[k] = v
+				}
+			}
+		default:
+			return "none"
+		}
+		var list []any
+		for _, v := range vehicles {
+			vm, _ := v.(map[string]any)
+			if vm == nil {
+				return "none"
+			}
+			e := map[string]any{"vehicle_ids": []any{vm["id"]}}
+			for k, val := range tmpl {
+				e[k] = val
+			}
+			list = append(list, e)
+			if rng.Intn(2) == 0 {
+				delete(vm, "speed") // allowed when a duration matrix is given
+			}
+		}
+		kind := "multi-matrix"
+		k := rng.Intn(len(list))
+		switch rng.Intn(5) {
+		case 0:
+			list[k].(map[string]any)["vehicle_ids"] = []any{"ghost-vehicle"}
+			kind += "-stale-id"
+		case 1:
+			list = append(list[:k], list[k+1:]...)
+			kind += "-uncovered-vehicle"
+		case 2:
+			if len(list) >= 2 {
+				list[k].(map[string]any)["vehicle_ids"] = list[(k+1)%len(list)].(map[string]any)["vehicle_ids"]
+				kind += "-id-twice"
+			}
+		case 3:
+			list[k].(map[string]any)["vehicle_ids"] = []any{}
+			kind += "-no-ids"
+		}
+		doc["duration_matrix"] = list
+		return kind
 	case 0:
 		delete(doc, pick(rng, []string{"duration_matrix", "distance_matrix", "vehicles", "stops", "stop_groups", "duration_groups", "alternate_stops"}))
 		return "drop-top-level"
